@@ -90,6 +90,7 @@ class Check:
         self.skipped = 0
         self.checker_cmds = []
         self.findings = [f for f in load_findings() if f["property"] == pid]
+        shutil.rmtree(os.path.join(ROOT, "replays", pid), ignore_errors=True)
 
     # ------------------------------------------------------------------ TLC
     def workdir(self, name):
